@@ -273,7 +273,8 @@ ProcessIn ==
                 supplied |-> st.n = 0 \/ st.hi <= 2 * L + chunk - 1,
                 contig |-> st.n = 0 \/ ContigRange(nb, st.lo, st.hi),
                 written |-> st.n <= onext, kf |-> kf]
-     /\ exact' = (exact /\ (t0 = t1 \/ IsPow2(den \div GCD(Abs(num), den))))
+     \* the increment in FRAMES, num / (den * Q), must be a dyadic rational for f64 to be exact
+     /\ exact' = (exact /\ (t0 = t1 \/ IsPow2((den * Q) \div GCD(Abs(num), den * Q))))
      /\ UNCHANGED <<cfg, tgt, chunk, needed, const>>
      /\ Step([op |-> "process", nin |-> chunk, nout |-> st.n,
               dies |-> ~(readok /\ st.subok /\ st.n <= onext)])
